@@ -39,7 +39,9 @@ class MiniPCNSMC(SMCSampler):
     ):
         from orng import ArrayRNG
 
-        self.sampler_kwargs = sampler_kwargs or {}
+        # Work on a copy: the caller's dictionary must not lose entries
+        # (e.g. n_final_steps) or gain defaults between calls
+        self.sampler_kwargs = dict(sampler_kwargs or {})
         self.sampler_kwargs.setdefault("n_steps", 5 * self.dims)
         self.sampler_kwargs.setdefault("target_acceptance_rate", 0.234)
         self.sampler_kwargs.setdefault("step_fn", "tpcn")
